@@ -263,7 +263,7 @@ func Response(r *rand.Rand, o HTTPOpts) RespSpec {
 		s.Body = []string{"null", "[]", "[" + string(raw) + "]", "5", "\"str\"", "true", "", "   ", string(raw[:len(raw)/2]), string(raw[:len(raw)-1]), "<html>not json</html>", "{", "{\"a\":}", "nul", "\xff\xfe", "{\"a\" 1}", "[1,2", "{\"marker\":\"" + o.Marker + "\""}[r.Intn(18)]
 		s.BodyClass = "not-object"
 	default:
-		s.Body = []string{string(raw) + "garbage", string(raw) + string(raw), string(raw) + "]", "﻿" + string(raw), "{\"marker\":\"\xff" + o.Marker + "\"}", "\n\n" + string(raw), "{\"a\":1,\"a\":2}", "{}"}[r.Intn(8)]
+		s.Body = []string{string(raw) + "garbage", string(raw) + string(raw), string(raw) + "]", "\ufeff" + string(raw), "{\"marker\":\"\xff" + o.Marker + "\"}", "\n\n" + string(raw), "{\"a\":1,\"a\":2}", "{}"}[r.Intn(8)]
 		s.BodyClass = "grey"
 		if s.Body == "{}" || strings.HasPrefix(s.Body, "\n\n") || s.Body == "{\"a\":1,\"a\":2}" {
 			s.BodyClass = "object"
